@@ -22,7 +22,11 @@ def extra(c):
         out.append(k)
     # every n in 2..64 (bit-for-bit n-th abscissae can depend on a single n), on integer, non-dyadic float and negative abscissae
     sweeps = [([Fraction(i) for i in range(5)], "int"), ([Fraction(k, 7) for k in (3, 5, 11, 12, 20, 31)], "array"),
-              ([Fraction(k, 10) for k in (-47, -31, -30, -12, 5)], "array")]
+              ([Fraction(k, 10) for k in (-47, -31, -30, -12, 5)], "array"),
+              # evenly spaced series in common time units (5-minute samples in seconds, hours in days, tenths): the width / n of the
+              # helper intervals rounds differently for each (seed C04h: a float-step arange with one element too many)
+              ([Fraction(300 * i) for i in range(4)], "int"), ([Fraction(i, 24) for i in range(4)], "array"),
+              ([Fraction(7 + i, 10) for i in range(4)], "array"), ([Fraction(3600 * i + 1800) for i in range(3)], "array")]
     for xs, cont in sweeps:
         for n in range(2, 65):
             for s in (ALL if c.thorough else ["PiecewiseConstant", "LinearFixed", "CubicSpline"]):
